@@ -15,6 +15,8 @@ static size_t h_len;
 size_t verif_strlen_ghost(const char* s) { return h_len; }
 
 void harness(void) {
+    GHOST_INDICES_ARBITRARY();
+    h_len = nondet_size();
     polyseed_str buf, snap;
     size_t S = nondet_size(), n = SRC_OBJ;
     char src[SRC_OBJ];
